@@ -78,9 +78,8 @@ def run(ctx):
 
     def decode_words(dec, words, n, k):
         # bounded batches: the brute-force decoder materialises (words x 2^k x n) distances
-        per = 4096
-        if type(dec).__name__ == "BruteForceMLDecoder":
-            per = max(16, min(4096, int(1.5e8 // ((1 << min(k, 24)) * n))))
+        # (also the Reed-Muller nearest-codeword inverse); the bound is harmless for the per-word decoders
+        per = max(16, min(4096, int(1.5e8 // ((1 << min(k, 24)) * n))))
         got, outs = [], []
         for i in range(0, len(words), per):
             x = torch.tensor([fec.int_to_bits(w, n) for w in words[i:i + per]], dtype=torch.float32)
